@@ -95,6 +95,15 @@ WITNESSES += [  # statements that carry trivia a coercion has to strip: trailing
     # grouping parentheses inside the operand at places where the target kind has no parentheses (dotted names, call functions, **rest)
     ('(a.b).c', 'expr'), ('((a).b).c.d', 'expr'), ('{(a.b).c: x}', 'expr'), ('(m.s).C(x)', 'expr'), ('(f)(a)', 'expr'), ('{1: a, **(r)}', 'expr'),
     ('(a.b).c | d', 'expr'), ('[(a), (b.c)]', 'expr'), ('f(k=(a.b).c)', 'expr'), ('(a)', 'expr'), ('((a, b))', 'expr'),
+    # a container whose only (or first / last) element is itself an undelimited sequence or needs grouping in its new home
+    ('a, b =', '_Assign_targets'), ('*a, b =', '_Assign_targets'), ('a, b = c =', '_Assign_targets'), ('x = a, b =', '_Assign_targets'),
+    ('a, (b, c) =', '_Assign_targets'), ('a.x, b[0] =', '_Assign_targets'), ('(a, b) =', '_Assign_targets'), ('[a, b] = c, =', '_Assign_targets'),
+    ('@(a, b)', '_decorator_list'), ('@a if b else c\n@(x := d)', '_decorator_list'), ('(a, b) as c', 'withitem'), ('(a, b)', 'withitem'),
+    ('(a, b) as c, (d, e)', '_withitems'), ('if (a, b)', '_comprehension_ifs'), ('if (a := b) if (yield)', '_comprehension_ifs'),
+    ('a:b, c', 'expr_slice'), ('a, b = c, d', 'stmt'), ('a = b, = c', 'stmt'), ('(x := 1)', 'expr'), ('(yield)', 'expr'),
+    ('(yield a, b)', 'expr'), ('a if b else c, d', 'expr'), ('(a, b), c', 'expr'), ('*a, b', 'expr'), ('(*a, b), [*c]', 'expr'),
+    ('del (a, b), c', 'stmt'), ('for a, b in c, d: pass', 'stmt'), ('k=(a, b)', 'keyword'), ('a, k=(b, c)', '_arglikes'),
+    ('(a, b), *c', '_arglikes'), ('T: (int, str)', 'type_param'), ('a: (b, c)', 'arg'), ('a=(b, c), *d', 'arguments'),
     ('None, True', 'expr'), ("[None, 1, -1, 's', 1+2j, -1-2j]", 'expr'), ('None, -1, 1+2j', 'pattern'), ('_ as a', 'withitem'),
 ]
 
@@ -195,6 +204,7 @@ def check(fst, wi, lay, lsrc, target, form, copy, res):
     op_root = op.root if is_fst else None
     pre = (op_root.src, O.dump_pos(op_root.a)) if is_fst else O.dump(op)
     op_kind = (op.a if is_fst else op).__class__
+    params['operand'] = op_kind.__name__
     try:
         with deadline(10):
             if is_fst:
